@@ -185,6 +185,16 @@ func (p *Pool) Release(ip net.IP) {
 	}
 }
 
+// IsAllocatedTo reports whether ip is the address this pool currently holds for
+// the given MAC (offered in DISCOVER or bound by an earlier REQUEST).
+func (p *Pool) IsAllocatedTo(mac net.HardwareAddr, ip net.IP) bool {
+	p.mu.Lock()
+	defer p.mu.Unlock()
+
+	held, ok := p.allocated[mac.String()]
+	return ok && held.Equal(ip)
+}
+
 // Contains checks if an IP is within this pool
 func (p *Pool) Contains(ip net.IP) bool {
 	return p.Network.Contains(ip)
